@@ -223,6 +223,18 @@ func scenarioC10(c *hlib.RunCtx) *hlib.Violation {
 					model[n] = v
 				}
 			}
+			if !pageRace && t.Bool(1, 6) {
+				// one hash chain of more records than a page could hold: the library
+				// finds names at its far end, and adds one more to it
+				chain := refformat.CollidingNames(fmt.Sprintf("q%d/", t.Draw(50)), 516+t.Draw(300))
+				for i, n := range chain[:len(chain)-1] {
+					v := uint64(1 + i%7)
+					pairs = append(pairs, refformat.Pair{Name: n, Value: v})
+					model[n] = v
+				}
+				pool = append(pool, chain[0], chain[len(chain)-2], chain[len(chain)-1]) // the first and the last stored, and one that is not yet in the file
+				s.Probe("chain-longer-than-a-page-of-records")
+			}
 			data, err := refformat.Encode(meta, pairs, t.Draw(4))
 			if err != nil {
 				panic("refformat.Encode: " + err.Error())
